@@ -45,6 +45,7 @@ use naga::valid::Capabilities as WgslCapabilities;
 #[path = "../../spec/lib/model_entry.rs"] pub mod model_entry;
 #[path = "../../spec/lib/vec_shims.rs"] pub mod vec_shims;
 #[path = "../../spec/lib/model_vertex.rs"] pub mod model_vertex;
+#[path = "../../spec/lib/model_stages.rs"] pub mod model_stages;
 #[path = "../../spec/lib/model_main.rs"] pub mod model_main;
 #[path = "../../spec/lib/print_model.rs"] pub mod print_model;
 #[path = "../../spec/lib/naga_front.rs"] pub mod naga_front;
@@ -61,7 +62,7 @@ use model_reach::*;
 use model_structs::*;
 use model_consts::{consts_wf, consts_items, overrides_supported, overrides_toks};
 use model_entry::{entries_wf, entry_consts_toks, fragment_states_toks};
-use model_vertex::{vertex_args_wf, vertex_states_toks};
+use model_vertex::{vertex_args_wf, vertex_states_toks, vertex_fields_wf, vertex_methods_post};
 use model_main::*;
 use print_model::*;
 use naga_front::*;
@@ -210,18 +211,24 @@ pub fn bind_groups_module(
 
 pub mod wgsl {
     use super::*;
-//@stub wgsl.rs::global_shader_stages
+    use crate::model_stages::{wf, wf_entries, bounded, gss_exact, gss_complete, entry_bits};
+//@stub wgsl.rs::global_shader_stages proved-in=stages
 «#[verifier::external_body]»
 pub fn global_shader_stages(module: &naga::Module) -> «(r:» BTreeMap<String, wgpu::ShaderStages>«)
-    requires pre_stages(module),
-    ensures r@ == spec_global_stages(module), stage_map_ok(r@),»
+    requires wf(module), wf_entries(module),
+    ensures
+        bounded(r@), // [C03.bounded] only VERTEX | FRAGMENT | COMPUTE bits occur in any visibility
+        gss_exact(module, r@, module.entry_points@.len() as int), // [C03.exact] no unused stage is ever added: every stage bit of a visibility is owed to an entry point of that stage that statically reaches a global of that name, and a binding nothing reaches has no entry (empty visibility)
+        gss_complete(module, r@, module.entry_points@.len() as int), // [C03.complete] no using stage is ever missing: a global reachable from an entry point of stage S (through any chain of calls, any nesting) has S in its visibility»
 { unimplemented!() }
 //@end
 
-//@stub wgsl.rs::entry_stages
+//@stub wgsl.rs::entry_stages proved-in=stages
 «#[verifier::external_body]»
 pub fn entry_stages(module: &naga::Module) -> «(r:» wgpu::ShaderStages«)
-    ensures r.bits == spec_entry_bits(module), r.bits < 8,»
+    ensures
+        r.bits == entry_bits(module.entry_points@), // [C13.entry-stages] the union of the stages that have an entry point
+        r.bits < 8,»
 { unimplemented!() }
 //@end
 
@@ -262,11 +269,13 @@ pub fn pipeline_overridable_constants(module: &naga::Module) -> «(r:» TokenStr
 { unimplemented!() }
 //@end
 
-//@stub entry.rs::vertex_struct_methods
+//@stub entry.rs::vertex_struct_methods proved-in=vertex
 «#[verifier::external_body]»
 pub fn vertex_struct_methods(module: &naga::Module) -> «(r:» TokenStream«)
-    requires pre_vertex_methods(module),
-    ensures ts_view(&r) == spec_vertex_methods(module),»
+    requires
+        vertex_args_wf(module), vertex_fields_wf(module),
+    ensures
+        vertex_methods_post(module, ts_view(&r)), // [C07.methods] the vertex section of the output is exactly those impl blocks, one after the other»
 { unimplemented!() }
 //@end
 
@@ -396,6 +405,12 @@ fn create_shader_module_inner(
     assert(groups_supported(gmap));»
     let global_stages = wgsl::global_shader_stages(&module);
     let entry_stages = wgsl::entry_stages(&module);
+    «proof {
+        // the analysed map is THE stage map of the module (bounded + exact + complete have one solution)
+        crate::model_stages::lemma_stage_map_is(&module, global_stages@);
+        assert(global_stages@ == spec_global_stages(&module));
+        assert(stage_map_ok(global_stages@));
+    }»
 
     // Write all the structs, including uniforms and entry function inputs.
     «proof { lemma_structs_noninterference(&module, options, opts_of(so)); }»
@@ -403,6 +418,7 @@ fn create_shader_module_inner(
     let consts = consts::consts(&module);
     let bind_groups_module = bind_groups_module(&bind_group_data, &global_stages);
     let vertex_module = vertex_struct_methods(&module);
+    «let ghost vm = ts_view(&vertex_module);»
     let compute_module = compute_module(&module);
     let entry_point_constants = entry_point_constants(&module);
     let vertex_states = vertex_states(&module);
@@ -480,14 +496,14 @@ fn create_shader_module_inner(
     };
 
     «proof {
-        assert(ts_view(&output) == output_toks(&module, src, path, so, gmap, ks, pcr, pcs));
+        assert(ts_view(&output) == output_toks(&module, src, path, so, gmap, ks, pcr, pcs, vm));
     }
     { let __r =» if options.rustfmt {
         Ok(pretty_print_rustfmt(output))
     } else {
         Ok(pretty_print(output))
     }«; proof {
-        assert(gen_ok(&module, src, path, so, options.rustfmt, __r->Ok_0@, gmap, ks, pcr, pcs));
+        assert(gen_ok(&module, src, path, so, options.rustfmt, __r->Ok_0@, gmap, ks, pcr, pcs, vm));
     } __r» }
 «}»
 //@end
